@@ -1,5 +1,5 @@
 (* MV.C03.Properties — property C03 ("every actor incarnation sees a well-formed lifecycle") on the kernel model. *)
-From MV Require Import Kernel.Launch Kernel.Restart.
+From MV Require Import Kernel.Launch Kernel.Restart Kernel.Hierarchy Kernel.Held.
 From MV Require Import Lib.ListX Kernel.Model Kernel.Run Kernel.Lifecycle Kernel.Status Kernel.Registry Kernel.Suspend Kernel.NoUser.
 Open Scope Z_scope.
 
@@ -123,3 +123,57 @@ Example C03_restart_completes_example :
     handled (snd (fst (try_restarted c03_roles s0 2 rNone))) =
       [OH 0 0 TT 0 rNone; OH 0 0 TTS 0 rNone; OH 0 1 TRD 0 rNone; OH 0 1 TL 0 rNone].
 Proof. eexists. eexists. eexists. split; [vm_compute; reflexivity|]. cbv zeta. repeat split; vm_compute; reflexivity. Qed.
+
+(* "... with no user message handled in between", as an invariant over every run (Kernel/Held.v): for every role table that does
+   not spawn from an actor's own OnTerminated handler nor under a system address (the hypotheses of the hierarchy invariant,
+   which supplies "the running object is the one registered under its address"), every label sequence with non-negative
+   top-level addresses and every state reachable from the freshly started system: an actor whose status is Restarting — from
+   the step that handles OnRestarting to the step that completes the restart, or to the start of a termination that overtakes
+   it — has its mailbox SUSPENDED and no user message in flight; hence a step of its mailbox shows no Handled observation
+   with a user-message trigger, whatever arrives meanwhile (in particular a supervisor's Resume decision about an earlier
+   failure: the history that refuted this statement before fix 925aa8b). PARTIAL only in the hypotheses on the role table
+   (the excluded tables are those of the open finding about spawning inside one's own OnTerminated). *)
+Theorem C03_restarting_actor_is_suspended_partial : forall roles,
+  (forall ro ru t r, In ro roles -> In ru (rules ro) -> In (ASpawn t r) (r_do ru) -> 0 <= t /\ r_on ru <> KTS) ->
+  forall ls s os u a, Forall lab_ok ls -> krun roles kinit ls = Some (s, os) -> get s u = Some a -> a_st a = Restarting ->
+  a_susp a = true /\ match a_inflight a with Some (MU _) => False | _ => True end.
+Proof. exact restarting_is_suspended. Qed.
+Print Assumptions C03_restarting_actor_is_suspended_partial.
+
+Theorem C03_restarting_actor_handles_no_user_message_partial : forall roles,
+  (forall ro ru t r, In ro roles -> In ru (rules ro) -> In (ASpawn t r) (r_do ru) -> 0 <= t /\ r_on ru <> KTS) ->
+  forall ls s os u a s' o, Forall lab_ok ls -> krun roles kinit ls = Some (s, os) -> get s u = Some a -> a_st a = Restarting ->
+  kstep roles s (LRun (Z.of_nat u)) = Some (s', o) ->
+  forall x i n sn sd, ~ In (OH x i (TP n) sn sd) o.
+Proof. exact restarting_handles_no_user. Qed.
+Print Assumptions C03_restarting_actor_handles_no_user_message_partial.
+
+(* non-vacuity: the role table and the history of the repaired defect satisfy the hypotheses, and reach a state in which actor A
+   (object 3) is restarting (it waits for its child) with a resume request queued for it and a user message waiting *)
+Definition c03_stale_roles : list role :=
+ [ {| victim := None; sup := [DRestartAll]; rules := [ {| r_on := KL; r_n := -1; r_inst := -1; r_do := [ASpawn 1 1; ASpawn 2 2] |} ] |};
+   {| victim := Some DResume; sup := []; rules := [ {| r_on := KL; r_n := -1; r_inst := -1; r_do := [ASpawn 3 3] |};
+        {| r_on := KP; r_n := 1; r_inst := -1; r_do := [AReport] |} ] |};
+   {| victim := None; sup := []; rules := [ {| r_on := KP; r_n := 2; r_inst := -1; r_do := [APanic] |} ] |};
+   {| victim := None; sup := []; rules := [] |} ].
+Definition c03_stale_labels : list label :=
+ [LSpawn 0 0; LRun 2; LRun 3; LRun 4; LRun 5; LTell 1 1; LTell 1 1; LTell 1 9; LTell 2 2;
+  LRun 3; LRun 2; LRun 4; LRun 3; LRun 2; LRun 3; LRun 2; LRun 3].
+Example C03_restarting_example :
+  (forall ro ru t r, In ro c03_stale_roles -> In ru (rules ro) -> In (ASpawn t r) (r_do ru) -> 0 <= t /\ r_on ru <> KTS) /\
+  Forall lab_ok c03_stale_labels /\
+  exists s os a e, krun c03_stale_roles kinit c03_stale_labels = Some (s, os) /\ get s 3 = Some a /\ a_st a = Restarting /\
+    a_inflight a = Some (MS e) /\ e_msg e = SResumeReq /\ a_userq a <> [].
+Proof.
+  split.
+  { intros ro ru t r Hro Hru Hact. cbn in Hro. destruct Hro as [<-|[<-|[<-|[<-|[]]]]]; cbn in Hru.
+    - destruct Hru as [<-|[]]. cbn in Hact. destruct Hact as [E|[E|[]]]; (inversion E; subst; split; [lia|discriminate]).
+    - destruct Hru as [<-|[<-|[]]]; cbn in Hact.
+      + destruct Hact as [E|[]]; (inversion E; subst; split; [lia|discriminate]).
+      + destruct Hact as [E|[]]; discriminate E.
+    - destruct Hru as [<-|[]]. cbn in Hact. destruct Hact as [E|[]]; discriminate E.
+    - destruct Hru. }
+  split; [repeat constructor; cbn; lia|].
+  eexists. eexists. eexists. eexists. split; [vm_compute; reflexivity|]. split; [vm_compute; reflexivity|].
+  split; [reflexivity|]. split; [reflexivity|]. split; [reflexivity|discriminate].
+Qed.
